@@ -1866,7 +1866,7 @@ template <class Vec, class T, int N> static void far_vertex_case (vp::Ctx& c, co
     if (nclose == 1) c.label (FV_FORCED);
     c.nt (!f.none);
     if (dmin > 0) QG_MEAS ("closestVertex/far-excess(eps)", (d2[which] / dmin - 1) / eps);
-    VP_REQUIRE (c, d2[which] <= dmin * (1 + K * eps), "closestVertex/not-closest-far-offset", tn << " closestVertex(" << vstr (v[0], N) << "," << vstr (v[1], N) << "," << vstr (v[2], N) << "; p=" << vstr (p, N) << ") = vertex " << which << " at squared distance " << qstr (d2[which]) << " but the minimum is " << qstr (dmin) << " (squared distances " << qstr (d2[0]) << " " << qstr (d2[1]) << " " << qstr (d2[2]) << "; excess over the minimum " << (dmin > 0 ? (double) ((d2[which] / dmin - 1) / eps) : 1e300) << " eps, limit " << (double) K << ")");
+    VP_REQUIRE (c, d2[which] <= dmin * (1 + K * eps), "closestVertex/not-closest-far-offset", tn << " closestVertex(" << vstr (v[0], N) << "," << vstr (v[1], N) << "," << vstr (v[2], N) << "; p=" << vstr (p, N) << ") = vertex " << which << " at squared distance " << qstr (d2[which]) << " but the minimum is " << qstr (dmin) << " (squared distances " << qstr (d2[0]) << " " << qstr (d2[1]) << " " << qstr (d2[2]) << "; excess over the minimum " << (dmin > 0 ? (double) ((d2[which] / dmin - 1) / eps) : (double) INFINITY) << " eps, limit " << (double) K << ")");
     if (lattice) // all keys exact: no slack at all; any of the tied vertices
         VP_REQUIRE (c, d2[which] == dmin, "closestVertex/not-closest-far-offset", tn << " (exact lattice) closestVertex returned vertex " << which << " at squared distance " << qstr (d2[which]) << ", minimum " << qstr (dmin));
 }
@@ -3015,5 +3015,4 @@ VP_RANDOM (vec_near_d, 200000, 2000000, C15_VN_RULE) { vec_near_dispatch<double>
 VP_LABELS (vec_near_d, C15_VN_LABELS)
 VP_REQUIRE_LABELS (vec_near_d, C15_VN_LABELS)
 
-// ==== END OF FAR SECTIONS ====
 VP_MAIN ("C15")
